@@ -1,5 +1,5 @@
 """C12 Same state, same search; ucinewgame means a fresh engine."""
-import os, json, re
+import os, json, time, re
 import vlib, games, uci, searches
 from fen2json import fen2pos
 
@@ -55,6 +55,18 @@ def run_proc(args):
         elif c[0] == "position":
             s.send("position " + c[1])
             events.append({"cmd": "position", "i": 0, "v": 0, "p": c[1], "d": 0, "out": "", "proc": proc})
+        elif c[0] == "analyse":
+            nb = s.counts["bestmove"]
+            s.send("go infinite")
+            time.sleep(c[1] / 1000.0)
+            s.send("stop")
+            if not s.wait_count("bestmove", nb + 1, 60):
+                problems.append("no bestmove after go infinite / stop")
+                break
+            events.append({"cmd": "analyse", "i": 0, "v": 0, "p": "%s#%d" % (proc, len(events)), "d": 0, "out": "", "proc": proc})
+        elif c[0] == "latestop":
+            s.send("stop")                       # no search is running: the previous go has been answered
+            events.append({"cmd": "idlestop", "i": 0, "v": 0, "p": "", "d": 0, "out": "", "proc": proc})
         elif c[0] == "go":
             mark = len(s.lines)
             nb = s.counts["bestmove"]
@@ -106,6 +118,11 @@ def main():
     for i in range(n_sets):
         S = suffix()
         H = prefix(("many256" if q else ["many255", "many256", "many257", "many512"][(i // 8) % 4]) if i % 8 == 7 else "mixed")
+        # the last thing before the new game is a stop: an analysis ended by stop, or a stop after the search has answered
+        if i % 4 == 1:
+            H = H + [("position", rng.choice(POSITIONS)), ("analyse", 30 + 20 * (i % 3))]
+        elif i % 4 == 2:
+            H = H + [("latestop",)]
         hashv = rng.choice([256, 256, 2, 16])
         setup = [] if hashv == 256 else [("setoption", "Hash", hashv)]
         restore = [("setoption", "Hash", hashv), ("setoption", "Move Overhead", 0)]
